@@ -172,6 +172,11 @@ def make_volume(path, spec, rng):
         a = a.astype(dt)
         if spec.get("quarters"):
             a = a + rng.integers(0, 2, size=a.shape).astype(dt) * dt.type(0.25)
+        if spec.get("fractions"):
+            # x.0, x.25, x.5 (ties), x.75 and some negative values: rounding to the nearest
+            # integer differs from truncation, negatives saturate at 0 for unsigned targets
+            a = a + rng.choice(np.array([0.0, 0.25, 0.5, 0.75]), size=a.shape).astype(dt)
+            a = np.where(rng.random(a.shape) < 0.1, -a - dt.type(0.25), a).astype(dt)
     else:
         a = a.astype(dt)
     affine = np.diag(list(spec["voxel"]) + [1.0])
@@ -289,19 +294,23 @@ def encode_array(arr):
         vals = [int(v) for v in flat.tolist()]
         den = 1
     elif flat.dtype.kind == "f":
+        # values without a small exact rational form (the harness never asks for such values, but
+        # the code under test may produce them): lossless hexadecimal float strings.  Such an array
+        # only equals an identical array (TLC compares the strings).
+        hexed = {"den": 1, "big": 1, "v": [float(v).hex() for v in flat.tolist()]}
         if not np.all(np.isfinite(flat)):
-            raise tlc.MachineryError("non-finite voxel value cannot be re-encoded")
+            return hexed
         ratios = [float(v).as_integer_ratio() for v in flat.tolist()]
         den = max([d for _, d in ratios] or [1])
         if den > (1 << 20):
-            raise tlc.MachineryError("voxel value with denominator %d cannot be re-encoded" % den)
+            return hexed
         vals = [n * (den // d) for n, d in ratios]
+        if den != 1 and any(abs(v) >= (1 << 31) for v in vals):
+            return hexed
     else:
         raise tlc.MachineryError("unsupported dtype %s" % flat.dtype)
     big = any(abs(v) >= (1 << 31) for v in vals)
     if big:
-        if den != 1:
-            raise tlc.MachineryError("large non-integer voxel values cannot be re-encoded")
         return {"den": 1, "big": 1, "v": [str(v) for v in vals]}
     return {"den": den, "big": 0, "v": vals}
 
@@ -1116,7 +1125,14 @@ def apply_rechunk(c, env):
     which are then listed in the info (hand edit).  This is how a dataset with
     several chunk_sizes per scale comes into being (no tool generates one).
     Refused (exit 1) without an info or for a sharded info."""
-    from neuroglancer_scripts import file_accessor, precomputed_io
+    try:
+        return _apply_rechunk(c, env)
+    except Exception:
+        return 1          # the code under test must never make the harness fall over
+
+
+def _apply_rechunk(c, env):
+    from neuroglancer_scripts import chunk_encoding, file_accessor
     d = env["dirs"][c["d"]]
     p = os.path.join(d, "info")
     if not os.path.isfile(p):
@@ -1130,7 +1146,9 @@ def apply_rechunk(c, env):
         return 1
     lay = LAYOUTS[env["lay"][c["d"]]]
     acc = file_accessor.FileAccessor(d, flat="--flat" in lay, gzip="--no-gzip" not in lay)
-    old = precomputed_io.PrecomputedIO(info, acc)
+    # chunk codec and accessor are used directly (no PrecomputedIO): a defect in the
+    # high-level read / write path must show in the tools, not in this set-up step
+    codec = {s["key"]: chunk_encoding.get_encoder(info, s) for s in info["scales"]}
     wholes = {}
     dt = np.dtype(info["data_type"])
     for s in info["scales"]:
@@ -1138,7 +1156,8 @@ def apply_rechunk(c, env):
         whole = np.zeros((info["num_channels"], size[2], size[1], size[0]), dtype=dt)
         try:
             for co in _grid(s["chunk_sizes"][0], size):
-                whole[:, co[4]:co[5], co[2]:co[3], co[0]:co[1]] = old.read_chunk(s["key"], co)
+                whole[:, co[4]:co[5], co[2]:co[3], co[0]:co[1]] = codec[s["key"]].decode(
+                    acc.fetch_chunk(s["key"], co), (co[1] - co[0], co[3] - co[2], co[5] - co[4]))
             wholes[s["key"]] = whole
         except Exception:
             pass                      # scale not completely stored: only declared
@@ -1150,15 +1169,25 @@ def apply_rechunk(c, env):
                 s["chunk_sizes"].append(list(cs))
     with open(p, "w") as f:
         json.dump(new_info, f, separators=(",", ":"), sort_keys=True)
-    new = precomputed_io.PrecomputedIO(new_info, acc)
     for s in new_info["scales"]:
         if s["key"] not in wholes:
             continue
         for cs in s["chunk_sizes"][1:]:
             for co in _grid(cs, s["size"]):
-                new.write_chunk(np.ascontiguousarray(
-                    wholes[s["key"]][:, co[4]:co[5], co[2]:co[3], co[0]:co[1]]), s["key"], co)
+                enc = codec[s["key"]]
+                acc.store_chunk(enc.encode(np.ascontiguousarray(
+                    wholes[s["key"]][:, co[4]:co[5], co[2]:co[3], co[0]:co[1]])), s["key"], co,
+                    mime_type=enc.mime_type)
     return 0
+
+
+def _action_table():
+    return {"Edit": (apply_edit, "edit info"), "HandInfo": (apply_hand_info, "write info_fullres.json"),
+            "Obstruct": (apply_obstruct, "obstruct"), "Rechunk": (apply_rechunk, "re-tile dataset"),
+            "Damage": (apply_damage, "damage one chunk file:"), "Restore": (apply_damage, "restore chunk file")}
+
+
+_ACTIONS = {}
 
 
 class Session:
@@ -1225,21 +1254,20 @@ class Session:
 
     def step(self, c, forced=None):
         env, case, dirs, it, prog = self.env, self.case, self.dirs, self.it, self.prog
+        if not _ACTIONS:
+            _ACTIONS.update(_action_table())
         report = _no_report()
         if forced is not None:
             rc, out, tail, args = forced
             if c["op"] == "Stats" and rc == 0:
                 report = parse_stats(out)
-        elif c["op"] == "Edit":
-            rc, out, tail, args = apply_edit(c, env), "", "", ["<edit info>"]
-        elif c["op"] == "HandInfo":
-            rc, out, tail, args = apply_hand_info(c, env), "", "", ["<write info_fullres.json>"]
-        elif c["op"] == "Obstruct":
-            rc, out, tail, args = apply_obstruct(c, env), "", "", ["<obstruct %s>" % c["m"]]
-        elif c["op"] == "Rechunk":
-            rc, out, tail, args = apply_rechunk(c, env), "", "", ["<re-tile dataset %s>" % c["m"]]
-        elif c["op"] in ("Damage", "Restore"):
-            rc, out, tail, args = apply_damage(c, env), "", "", ["<%s one chunk file>" % (c["m"] if c["op"] == "Damage" else "restore")]
+        elif c["op"] in _ACTIONS:
+            fn, label = _ACTIONS[c["op"]]
+            try:
+                rc, tail = fn(c, env), ""
+            except Exception as exc:          # recorded, never raised: the trace goes on
+                rc, tail = 1, "harness action failed: %s: %s" % (type(exc).__name__, exc)
+            out, args = "", ["<%s %s>" % (label, c["m"] if c["m"] != "-" else "")]
         else:
             if c["op"] == "Convert" and c["m"] == "srcfault":
                 if not self.servers:
@@ -1256,8 +1284,14 @@ class Session:
         ev = {"cmd": {f: c[f] for f in FIELDS}, "exit": rc,
               "snap": {k: snap_dir(p, it) for k, p in dirs.items()},
               "report": report, "remote": 1 if (c["op"] == "Convert" and c["src"] in env["urls"]) else 0}
-        ev["fmt"] = (spec_reader_view(dirs[c["d"]], snap_before[c["src"]], it)
-                     if c["op"] == "Convert" and rc == 0 and c["src"] in dirs else [])
+        ev["fmt"] = []
+        if c["op"] == "Convert" and rc == 0 and c["src"] in dirs:
+            try:
+                ev["fmt"] = spec_reader_view(dirs[c["d"]], snap_before[c["src"]], it)
+            except tlc.MachineryError:
+                raise
+            except Exception:
+                ev["fmt"] = []
         case["events"].append(ev)
         case["_log"].append({"argv": [a.replace(self.base, ".") for a in args],
                              "exit": rc, "stderr": tail,
